@@ -11,6 +11,8 @@ import (
 
 func init() { commands["compile"] = cmdCompile }
 
+var prevPolicy *seccomp.Policy
+
 // parsePolicy reads: default ngroups {action nnames name... nnwc {name nconds {arg op val}...}...}
 func parsePolicy(t *toks) *seccomp.Policy {
 	p := &seccomp.Policy{DefaultAction: seccomp.Action(uint32(t.u64()))}
@@ -140,6 +142,14 @@ func cmdCompile() {
 			le := t.next() == "1"
 			an := t.next()
 			p := parsePolicy(t)
+			// "@>B": the policy VALUE of the previous case is edited in place (its exported fields are overwritten
+			// with this policy's) and assembled again, for B
+			if strings.HasPrefix(an, "@>") && prevPolicy != nil {
+				prevPolicy.DefaultAction = p.DefaultAction
+				prevPolicy.Syscalls = p.Syscalls
+				p = prevPolicy
+			}
+			prevPolicy = p
 			fmt.Fprintf(w, "%s | %s\n", line, compilePolicy(le, an, p))
 		default:
 			fmt.Fprintln(w, line)
